@@ -73,6 +73,15 @@ pub enum Method {
     FilteredCountFromIndexes,
     IndirectSequential,
     FirstPerIndex,
+    // running float state that is resumed exactly (stored precision == running precision)
+    Sma,
+    SmaFrom,
+    Ema,
+    EmaFrom,
+    Rma,
+    RollingEma,
+    RollingRma,
+    RollingRatioPow2,
 }
 
 pub const ALL_METHODS: &[Method] = &[
@@ -128,6 +137,14 @@ pub const ALL_METHODS: &[Method] = &[
     Method::FilteredCountFromIndexes,
     Method::IndirectSequential,
     Method::FirstPerIndex,
+    Method::Sma,
+    Method::SmaFrom,
+    Method::Ema,
+    Method::EmaFrom,
+    Method::Rma,
+    Method::RollingEma,
+    Method::RollingRma,
+    Method::RollingRatioPow2,
 ];
 
 impl Method {
@@ -282,6 +299,8 @@ impl GenVal for u32 {
             1 => (h % 997) as u32 + 1,
             // small counts
             2 => (h % 4) as u32,
+            // zero or a power of two (divisions by it, and multiplications back, are exact in f64)
+            4 => [0u32, 1, 1, 2, 4, 8, 1, 2][(h % 8) as usize],
             _ => match h % 8 {
                 0 => 0,
                 1 => 1,
@@ -481,6 +500,8 @@ macro_rules! compute_family {
                 pub c: Src<SV<u32>>,
                 /// non-zero u32
                 pub bn: Src<SV<u32>>,
+                /// zero or a power of two
+                pub pw: Src<SV<u32>>,
                 pub x: Src<SV<u64>>,
                 pub y: Src<SV<u64>>,
                 pub z: Src<SV<u64>>,
@@ -519,6 +540,7 @@ macro_rules! compute_family {
                         b: Src::new(&db, "b", 0, 2)?,
                         c: Src::new(&db, "c", 0, 3)?,
                         bn: Src::new(&db, "bn", 1, 4)?,
+                        pw: Src::new(&db, "pw", 4, 17)?,
                         x: Src::new(&db, "x", 0, 5)?,
                         y: Src::new(&db, "y", 0, 6)?,
                         z: Src::new(&db, "z", 0, 7)?,
@@ -558,7 +580,7 @@ macro_rules! compute_family {
                 /// shortest same-index source
                 pub fn min_len(&self) -> usize {
                     [
-                        self.a.len(), self.b.len(), self.c.len(), self.bn.len(), self.x.len(), self.y.len(), self.z.len(), self.nz.len(),
+                        self.a.len(), self.b.len(), self.c.len(), self.bn.len(), self.pw.len(), self.x.len(), self.y.len(), self.z.len(), self.nz.len(),
                         self.big.len(), self.f.len(), self.g.len(), self.h.len(), self.d1.len(), self.d2.len(), self.starts.m.len(), self.keys.m.len(),
                     ]
                     .into_iter()
@@ -611,7 +633,7 @@ macro_rules! compute_family {
                         Change::Grow { n, skew } => {
                             let n = n as usize;
                             macro_rules! g { ($s:expr, $k:expr) => { $s.grow(n + skew[$k % 3] as usize, seed)? }; }
-                            g!(self.a, 0); g!(self.b, 1); g!(self.c, 2); g!(self.bn, 0);
+                            g!(self.a, 0); g!(self.b, 1); g!(self.c, 2); g!(self.bn, 0); g!(self.pw, 1);
                             g!(self.x, 1); g!(self.y, 2); g!(self.z, 0); g!(self.nz, 1); g!(self.big, 2);
                             g!(self.f, 0); g!(self.g, 1); g!(self.h, 2); g!(self.d1, 0); g!(self.d2, 1);
                             let to = self.starts.m.len() + n + skew[2] as usize;
@@ -630,7 +652,7 @@ macro_rules! compute_family {
                             let at = frac(at, old_min);
                             let n = n as usize;
                             macro_rules! r { ($s:expr) => {{ $s.truncate(at)?; $s.grow(n, seed)?; }}; }
-                            r!(self.a); r!(self.b); r!(self.c); r!(self.bn);
+                            r!(self.a); r!(self.b); r!(self.c); r!(self.bn); r!(self.pw);
                             r!(self.x); r!(self.y); r!(self.z); r!(self.nz); r!(self.big);
                             r!(self.f); r!(self.g); r!(self.h); r!(self.d1); r!(self.d2);
                             self.starts.set_tail(at, &[])?;
@@ -993,6 +1015,28 @@ macro_rules! compute_family {
                     Method::IndirectSequential => drive::<SV<u64>>(case, &mut w, obs, false, &|w| w.keys.m.len(), &|w, c| c.min(w.keys.m.partition_point(|&k| k < c)), Some(&|w: &World| w.keys.m.iter().map(|&k| w.x.m[k]).collect::<Vec<u64>>()), &|e, w, mf, x| {
                         e.compute_indirect_sequential(mf, &w.keys.v, &w.x.v, x)
                     }),
+                    // ---- running float state resumed exactly from the stored last value (same precision): the
+                    // incremental result must be bit-identical to the single-call one
+                    Method::Sma => drive::<SV<f32>>(case, &mut w, obs, false, &|w| w.f.len(), &|_w, c| c, None, &|e, w, mf, x| e.compute_sma(mf, &w.f.v, win(w), x)),
+                    Method::SmaFrom => drive::<SV<f32>>(case, &mut w, obs, false, &|w| w.f.len(), &|_w, c| c, None, &|e, w, mf, x| {
+                        e.compute_sma_(mf, &w.f.v, win(w), x, Some(frac(fs, case.initial_len() + 2)))
+                    }),
+                    Method::Ema => drive::<SV<f32>>(case, &mut w, obs, false, &|w| w.g.len(), &|_w, c| c, None, &|e, w, mf, x| e.compute_ema(mf, &w.g.v, win(w), x)),
+                    Method::EmaFrom => drive::<SV<f32>>(case, &mut w, obs, false, &|w| w.g.len(), &|_w, c| c, None, &|e, w, mf, x| {
+                        e.compute_ema_(mf, &w.g.v, win(w), x, Some(frac(fs, case.initial_len() + 2)))
+                    }),
+                    Method::Rma => drive::<SV<f32>>(case, &mut w, obs, false, &|w| w.h.len(), &|_w, c| c, None, &|e, w, mf, x| e.compute_rma(mf, &w.h.v, win(w), x)),
+                    Method::RollingEma => drive::<SV<f64>>(case, &mut w, obs, false, &|w| min2(w.starts.m.len(), w.a.len()), &|_w, c| c, None, &|e, w, mf, x| {
+                        e.compute_rolling_ema(mf, &w.starts.v, &w.a.v, x)
+                    }),
+                    Method::RollingRma => drive::<SV<f64>>(case, &mut w, obs, false, &|w| min2(w.starts.m.len(), w.b.len()), &|_w, c| c, None, &|e, w, mf, x| {
+                        e.compute_rolling_rma(mf, &w.starts.v, &w.b.v, x)
+                    }),
+                    // sum(numerator[starts[i]..=i]) / denominator[i] with integer numerators and denominators that are
+                    // zero or a power of two: every sum, quotient and the product that recovers the sum on resume are exact
+                    Method::RollingRatioPow2 => drive::<SV<f64>>(case, &mut w, obs, false, &|w| w.starts.m.len().min(w.a.len()).min(w.pw.len()), &|_w, c| c,
+                        Some(&|w: &World| (0..w.starts.m.len().min(w.a.m.len()).min(w.pw.m.len())).map(|i| { let s: u64 = w.a.m[w.starts.m[i]..=i].iter().map(|v| *v as u64).sum(); if w.pw.m[i] == 0 { 0.0 } else { s as f64 / w.pw.m[i] as f64 } }).collect::<Vec<f64>>()),
+                        &|e, w, mf, x| e.compute_rolling_ratio(mf, &w.starts.v, &w.a.v, &w.pw.v, x)),
                     Method::FirstPerIndex => {
                         // index spaces are swapped for this method (result: coarse -> first fine index);
                         // its starting index is a FINE index
